@@ -152,6 +152,7 @@ for n, props, sym in [
     ("ls_current_local_parent_empty_token", ["C07", "C11"], "generator state"),
     ("ls_current_local_parent_fields", ["C11", "C10"], "token item (all fields)"),
     ("ls_current_local_parent_two_items", ["C11", "C05"], "two token items (all fields, both flags)"),
+    ("ls_other_thread_unaffected", ["C10", "C13"], "token item; two virtual threads"),
     ("ls_closure_reenters_add_properties", ["C07"], "token item"),
     ("ls_closure_reenters_lazy_iterator", ["C07"], "token item"),
     ("ls_tls_teardown_local_api", ["C07", "C16"], "none (span stack destroyed)"),
